@@ -136,7 +136,9 @@ Mac api_key_mac(int k) {
 // ============================================================ plan text
 std::string op_to_text(const Op &o) {
     std::ostringstream s;
-    s << "op " << op_name(o.kind) << " dt=" << o.dt << " a=";
+    s << "op " << op_name(o.kind) << " dt=" << o.dt;
+    if (o.only >= 0) s << " only=" << o.only;
+    s << " a=";
     for (int i = 0; i < 8; i++) s << (i ? "," : "") << o.a[i];
     if (!o.blob.empty()) s << " blob=" << hex(o.blob.data(), o.blob.size());
     if (!o.f.empty()) {
@@ -214,6 +216,7 @@ bool plan_from_text(const std::string &text, Plan &p, std::string &err) {
             if (o.kind < 0) { err = "unknown op " + name; return false; }
             auto m = kvs(ls);
             o.dt = (uint32_t)strtoul(m["dt"].c_str(), 0, 10);
+            if (m.count("only")) o.only = atoi(m["only"].c_str());
             {
                 std::istringstream as(m["a"]);
                 std::string t;
@@ -625,6 +628,7 @@ void World::put_on_wire(const Bytes &f0, int src_station, int src_node, const Op
         Node &n = *nodes[i];
         if (n.hidden || (int)i == src_node || !n.usable) continue;
         if (only_node >= 0 && (int)i != only_node) continue;
+        if (op && op->only >= 0 && (int)i != op->only) continue;
         if (drop && (dropmask == 0 || ((dropmask >> i) & 1))) { st.fault_fired[F_DROP]++; continue; }
         if (src_node < 0 && i < 8 && tsend < partition_until[i]) { note("partition_drop"); continue; }
         for (uint64_t c = 0; c <= dups; c++) {
@@ -931,7 +935,8 @@ void World::exec_op(int i) {
                 uint64_t tt = base + (uint64_t)(k * op.a[4] / count);
                 Bytes ff = f;
                 int sidc = (int)op.a[0];
-                at(tt, [this, ff, sidc, i]() { put_on_wire(ff, sidc, -1, nullptr, i); });
+                int onlyc = op.only;
+                at(tt, [this, ff, sidc, i, onlyc]() { put_on_wire(ff, sidc, -1, nullptr, i, onlyc); });
             }
         } else {
             Frame fr;
@@ -939,6 +944,7 @@ void World::exec_op(int i) {
             for (size_t nn = 0; nn < nodes.size(); nn++) {
                 if (nodes[nn]->hidden || !nodes[nn]->usable) continue;
                 if (op.a[5] > 0 && (int)nn != op.a[5] - 1) continue;
+                if (op.only >= 0 && (int)nn != op.only) continue;
                 for (int64_t k = 0; k < count && !stop; k++) { fr.wire_id = ++wire_counter; handle_delivery((int)nn, fr, i, nullptr, 0); if (!violations.empty() && !verbose) stop = true; }
             }
         }
